@@ -71,6 +71,9 @@ func buildCorpus(dir, repoVal string, vals []string) error {
 			{Name: g + "dir/" + name, Content: []byte("alpha NEEDLE beta\n"), Branches: []string{branch}},
 			{Name: g + "zzfixed.txt", Content: []byte("l1\nl2 " + val + "\n" + val + " NEEDLE " + val + "\nl4 " + val + "\nl5\n"), Branches: []string{branch}},
 			{Name: g + "other-" + name, Content: []byte("NEEDLE"), Branches: []string{branch}},
+			// the value directly before and after a match on one line: for values around the excerpt limit this is the
+			// LimitPre / LimitPost boundary on a real search result
+			{Name: g + "zzlong.txt", Content: []byte(val + "NEEDLE" + val + "\n"), Branches: []string{branch}},
 		}
 		for _, d := range docs {
 			if err := b.Add(d); err != nil {
@@ -356,6 +359,15 @@ func runEndToEnd(w *gen.Writer, r *gen.Rand, f gen.Flags) {
 	for i, n := 0, f.N(20, 600); i < n; i++ {
 		ps = append(ps, randomPayload(r))
 	}
+	bvs := boundaryValues()
+	nbv := 0
+	for i, p := range bvs {
+		if f.Tier == "thorough" || i%6 == int(f.Seed%6) || (strings.HasPrefix(p, "\xa7") && len(p) <= excerptLimit+1) {
+			ps = append(ps, p)
+			nbv++
+		}
+	}
+	w.Count("e2e-boundary-values", nbv)
 	gen.Shuffle(r, ps)
 	nb := f.N(2, 16)
 	per := (len(ps) + nb - 1) / nb
